@@ -54,6 +54,7 @@ type Result struct {
 	States    []string       `json:"states,omitempty"`
 	NonTrivial bool          `json:"nontrivial"`
 	Used      []int          `json:"used,omitempty"`
+	Inconcl   string         `json:"inconclusive,omitempty"`
 }
 
 // Run is the context handed to a scenario.
@@ -87,6 +88,14 @@ func (r *Run) Failed() bool { return r.Res.Viol != nil }
 func (r *Run) HarnessError(format string, args ...any) {
 	if r.Res.Harness == "" {
 		r.Res.Harness = fmt.Sprintf(format, args...)
+	}
+}
+
+// Inconclusive marks a run whose budget ran out before the oracle could be evaluated. It
+// is neither a violation nor a harness error; evidence counts them.
+func (r *Run) Inconclusive(why string) {
+	if r.Res.Inconcl == "" {
+		r.Res.Inconcl = why
 	}
 }
 
